@@ -193,6 +193,11 @@ func checkC11(c caseC11) (Outcome, error) {
 		}
 	}
 	if firstErr != "" {
+		// A command the model accepts must not fail: the usual cause is inserted text whose style
+		// does not fit the record (mixed indentation), which the safeguard re-parse then refuses.
+		if _, reject, mayReject := model.Apply(c.Doc, c.Cmd, c.Env); !reject && !mayReject {
+			return out, fmt.Errorf("klog %s failed (%s) although the command is valid for this file\ninput: %s", cmdString(c.Cmd), firstErr, quoteShort(text))
+		}
 		out.Label("command-failed")
 		return out, nil
 	}
